@@ -154,8 +154,8 @@ PROPS = {
     },
     "C16": {
         "bin": "px_palette", "budget_ms": 20000, "wall_cap": {"quick": 600, "thorough": 2400},
-        "rule": "histories: every sequence of <=3 (thorough 4) operations over 18 insert/set instances (a colour already present, new colours, indices 0, 5, len, len+2) from 3 start palettes (empty, DOS 16, 300 colours with a duplicate), "
-                "oracle after every step; every sequence of <=2 (thorough 3) colour-selecting control functions through the real ANSI parser with a character printed after each (earlier cells must keep their colour); "
+        "rule": "histories: every sequence of <=4 operations over 18 insert/set instances (a colour already present, new colours, indices 0, 5, len, len+2) from 4 start palettes (empty, DOS 16, 300 colours with a duplicate, named colours), "
+                "oracle after every step; every sequence of <=3 (thorough 4) colour-selecting control functions (incl. OSC 4 slot redefinition) through the real ANSI parser with a character printed after each (earlier cells must keep their colour); "
                 "files: 5 formats x (n=1: all 343 colours over 7 levels x 6x6 title/description texts x 2 authors x names on/off; n in {0,2,16,17,256,300} x 6 descriptions x names on/off; thorough: all 2^24 colours) ; all 64^3 six-bit colours",
         "level_text": "all operation histories up to the depth bound and the complete small-scope file menu are executed on the real Palette / parser / exporters / importers and compared with a list-of-RGB reference",
         "level_note": "'returns its existing index' is read as: an index that already resolved to that RGB before the call; Ase format is not implemented in the engine (todo!) and outside the five named formats",
@@ -164,7 +164,7 @@ PROPS = {
     },
     "C17": {
         "bin": "px_fonts", "budget_ms": 30000, "wall_cap": {"quick": 600, "thorough": 2400},
-        "rule": "bitmap fonts: every height 1..=32 x (2 (thorough 8) synthetic seeds whose glyph rows take every byte value, a rotation font, constant fonts 0x00/0xFF/0x1B/0x36) + every built-in font page 0..=42 + the 16 SAUCE fonts, each through "
+        "rule": "bitmap fonts: every height 1..=32 x (6 (thorough 12) synthetic seeds whose glyph rows take every byte value, a rotation font, constant fonts 0x00/0xFF/0x1B/0x36) + every built-in font page 0..=42 + the 16 SAUCE fonts, each through "
                 "PSF2 (incl. rewrite stability), raw data via create_8 / from_basic / from_bytes, the DCS font sequence into slots 0/1/42/255 through the ANSI parser and a slot redefined three times within one session, XBin (1 and 2 fonts, compressed and not), ADF, IDF and IcyDraw (1 and 2 fonts); "
                 "512-glyph PSF2 fonts of every height; TheDraw: every glyph size 1..=30 x 1..=12 x 3 types x 4 row styles, every number 0..=94 of defined glyphs x 3 placements x 3 types, names of 0..=12 characters, spacing 0..=40, "
                 "94 maximal glyphs (beyond the 16 bit offsets), bundles of 1..=34 mixed fonts x 3 type rotations; non-trivial = every font",
